@@ -25,12 +25,34 @@ type crashOp struct {
 	MediaType string `json:"mediaType,omitempty"`
 	Data      []byte `json:"data,omitempty"`
 	Ref       string `json:"ref,omitempty"`
+	Ann       string `json:"ann,omitempty"` // value of the verif.ann annotation on the tagged descriptor
 	AutoSave  bool   `json:"autoSave"`
 	AutoGC    bool   `json:"autoGC"`
 }
 
 func (o crashOp) desc() ocispec.Descriptor {
-	return ocispec.Descriptor{MediaType: o.MediaType, Digest: digest.FromBytes(o.Data), Size: int64(len(o.Data))}
+	d := ocispec.Descriptor{MediaType: o.MediaType, Digest: digest.FromBytes(o.Data), Size: int64(len(o.Data))}
+	if o.Ann != "" {
+		d.Annotations = map[string]string{"verif.ann": o.Ann}
+	}
+	return d
+}
+
+// tagView is what a handle says about its reference names: name -> digest + annotation.
+func tagView(ctx context.Context, s *oci.Store) (map[string]string, error) {
+	out := map[string]string{}
+	var tags []string
+	if err := s.Tags(ctx, "", func(ts []string) error { tags = append(tags, ts...); return nil }); err != nil {
+		return nil, err
+	}
+	for _, t := range tags {
+		d, err := s.Resolve(ctx, t)
+		if err != nil {
+			return nil, fmt.Errorf("resolve:%s", t)
+		}
+		out[t] = d.Digest.String() + "#" + d.Annotations["verif.ann"]
+	}
+	return out, nil
 }
 
 func applyCrashOps(dir string, ops []crashOp) error {
@@ -39,6 +61,15 @@ func applyCrashOps(dir string, ops []crashOp) error {
 	if err != nil {
 		return fmt.Errorf("open: %w", err)
 	}
+	defer func() {
+		// the live handle's view when the last operation has returned (outside the layout)
+		if os.Getenv("VERIF_LIVE_VIEW") != "" {
+			if v, err := tagView(ctx, s); err == nil {
+				b, _ := json.Marshal(v)
+				fmt.Printf("LIVE %s\n", b) // standard output: no file is opened for it
+			}
+		}
+	}()
 	for _, o := range ops {
 		s.AutoSaveIndex = o.AutoSave
 		s.AutoGC = o.AutoGC
